@@ -1998,7 +1998,9 @@ class SpaceUpdater(SharedSpaceOperations):
         self._instructions.execute()
         self._update_manager()
 
-        if space is self.model.currentspace:
+        cur = self.model.currentspace
+        if cur is not None and (cur is space or cur.has_ascendant(space)):
+            # The current space was the space or was inside its tree
             self.model.currentspace = None
 
     def copy_space(
